@@ -97,3 +97,11 @@ Theorem C11_erase_is_identity_quantizers : forall (T : Type) input cfg weight op
   ev T input cfg weight (fun _ x => x) op1 op2 op3 v (erase e) = ev T input cfg weight (fun _ x => x) op1 op2 op3 v e.
 Proof. exact erase_ev_no_quant. Qed.
 Print Assumptions C11_erase_is_identity_quantizers.
+
+(* every backend convolution is called with the layer's own strides, padding, dilation and data format:
+   the keyword arguments the translator found at each backend call site are the golden table of
+   Layers/Dataflow.v, and none of the four geometry keywords is missing at any call site *)
+Theorem C11_geometry_table : gen_geometry = expected_geometry.
+Proof. reflexivity. Qed.
+Theorem C11_geometry_complete : geometry_complete gen_geometry = true.
+Proof. vm_compute. reflexivity. Qed.
